@@ -5,7 +5,10 @@ package actor
 // events are handled. Param "prop": 9 (undeliverable messages) or 12
 // (subscribe / unsubscribe / broadcast histories).
 
-import "github.com/anthdm/hollywood/zzrt"
+import (
+	"github.com/anthdm/hollywood/zzrt"
+	"github.com/anthdm/hollywood/zzshim/rand"
+)
 
 type zzQueueProc struct {
 	pid  *PID
@@ -37,17 +40,30 @@ func (p *zzQueueProc) step() {
 
 type zzEvt struct{ N int }
 
+// zzEngineWithStream: NewEngine with default configuration (the id drawn for the event stream actor fixed), its
+// event stream actor started and idle.
+func zzEngineWithStream() (*Engine, *process) {
+	rand.ZZFix(1)
+	e, err := NewEngine(NewEngineConfig())
+	rand.ZZFix(-1)
+	zzrt.Assert(err == nil && e != nil, "engine-not-created")
+	zzrt.Quiesce()
+	real, _ := e.Registry.get(e.eventStream).(*process)
+	zzrt.Assert(real != nil, "event-stream-not-registered")
+	return e, real
+}
+
 func ZZ_ES() {
 	prop := zzrt.Param("prop")
 	K := zzrt.Param("K")
 	S := zzrt.Param("S")
 	L := zzrt.Param("L")
 
-	e := &Engine{address: LocalLookupAddr}
-	e.Registry = newRegistry(e)
-	es := &zzQueueProc{pid: NewPID(e.address, "eventstream"+pidSeparator+"zz"), recv: newEventStream()(), e: e}
+	// the engine as NewEngine builds it; its event stream actor is then replaced, under the same PID, by a
+	// queueing process around a receiver made by the same Producer
+	e, real := zzEngineWithStream()
+	es := &zzQueueProc{pid: e.eventStream, recv: real.Producer(), e: e}
 	e.Registry.lookup[es.pid.ID] = es
-	e.eventStream = es.pid
 
 	subs := make([]*ZZRecProc, S)
 	subscribed := make([]bool, S)
@@ -300,10 +316,7 @@ func ZZ_ES() {
 // goroutine's broadcast order.
 func ZZ_C12_Threads() {
 	G := zzrt.Param("G")
-	e := &Engine{address: LocalLookupAddr}
-	e.Registry = newRegistry(e)
-	e.eventStream = e.Spawn(newEventStream(), "eventstream", WithInboxSize(2))
-	zzrt.Quiesce()
+	e, _ := zzEngineWithStream()
 	// a subscriber on another node: what the event stream hands to the engine's remote for it, in that order
 	rem := &ZZRecRemote{Addr: e.address}
 	e.remote = rem
